@@ -234,6 +234,16 @@ def run_case(spec, lines, out):
         return
     if spec["id"] % 2 == 1 and arr.values.ndim >= 2:
         arr.values = np.asfortranarray(arr.values)        # same entries, another memory order
+    # an infinite value survives export and import (the table model has no infinity: harness-level observation)
+    if arr.values.size > 0 and arr.values.ndim >= 1:
+        try:
+            a2 = arr.copy()
+            a2.values.flat[0] = np.inf
+            back = FlodymArray.from_df(dims, a2.to_df(), allow_missing_values=bool(spec["id"] % 2))
+            same = np.array_equal(back.values, a2.values)
+        except Exception:
+            same = False
+        emit("note infinite_value_round_trip", "ok" if same else "CHANGED")
     nxt = 301
     for op in spec["ops"]:
         if op["op"] == "todf":
